@@ -137,6 +137,12 @@ class Prop(common.PropertyCheck):
             c.update({'creator': creators[i % len(creators)], 'D': [3, 11, 12][i % 3]})
             yield c
 
+        # time channels that are not monotone along the event list: the acquisition time is that between the first and the last event
+        for i in range(self.budget(24, 200)):
+            c = self.make_case(rng, ['$TIMESTEP'] + [o for o in ('TIMETICKS', '$BTIM', '$ETIM', '$DATE') if rng.random() < 0.5], timech=['Time', 'TIME', 'time'][i % 3])
+            c.update({'tperm': True, 'nev': 3, 'dt': ['I', 'F'][i % 2]})
+            yield c
+
     def spec_of(self, case):
         import random
         r = random.Random(case['seed'])
@@ -171,6 +177,9 @@ class Prop(common.PropertyCheck):
                 extra.append(['CytekP%02dG' % i, val('CytekPnnG', 'G')])
         ev = [[5, 10, 100] + [3] * (D - 3), [7, 20, 250] + [4] * (D - 3), [9, 30, 400] + [5] * (D - 3)]
         ev = ev[:case.get('nev', 3)]
+        if case.get('tperm') and len(ev) == 3:
+            # the clock channel is not monotone along the event list (a counter that wrapped, events written out of order): 250, 100, 400
+            ev[0][2], ev[1][2] = 250, 100
         dt = case.get('dt', 'I')
         if dt == 'F':
             import struct
@@ -271,7 +280,8 @@ class Prop(common.PropertyCheck):
             return 'acquisition_time raised %s (keywords %s, ill-formed %s, time channel %s)' % (impl['acq_err'], case['subset'], case['ill'], case['timech'])
         if len(tch) == 1 and want_ts is not None:
             last = {1: 100, 2: 250, 3: 400}[case.get('nev', 3)]        # value of the time channel in the last event (first: 100)
-            want = (last - 100) * want_ts
+            first = 250 if (case.get('tperm') and case.get('nev', 3) == 3) else 100
+            want = (last - first) * want_ts
             src = 'time channel'
         elif impl['start'] is not None and impl['stop'] is not None:
             s, e = impl['start']['time'], impl['stop']['time']
